@@ -61,7 +61,11 @@ def fillNode (mode seed idx : Nat) (n : Node) : Node :=
       match n.enc.type with
       | .ccitt => (setSvalue n (pickStr mode seed idx (n.enc.nbits / 8).toNat)).1
       | .numeric | .codetable | .flagtable | .chngRef =>
-        if n.enc.nbits ≤ 0 ∨ n.enc.nbits > 64 then n else (setRaw n (pickRaw mode seed idx n.enc.nbits.toNat)).1
+        if n.enc.nbits ≤ 0 ∨ n.enc.nbits > 64 then n else
+        let raw := pickRaw mode seed idx n.enc.nbits.toNat
+        -- a new reference value of -1 cannot be told from "missing" (known limitation): avoid it
+        let raw := if n.enc.type = .chngRef ∧ raw ≠ missingIvalue n.enc.nbits ∧ cvtIvalue raw n.enc.nbits = -1 then 0 else raw
+        (setRaw n raw).1
       | _ => n
     if n1.afW > 0 ∧ n1.afW ≤ 64 then { n1 with afBits := mix seed (idx + 100003) % 2 ^ n1.afW } else n1
 
@@ -116,8 +120,12 @@ partial def stepCodec (st : TmplSt) (cs : CodecSt) (toks : List String) : Option
   | ["ds.encode", c] =>
     match c.toInt?, st.tmpl with
     | some c, some t =>
-      let ss := st.subsets.toList.map (·.nodes)
-      let (flag, w) := encodeData ss 0 c
+      let settled := st.subsets.toList.map fun s => settleNewRefs T t.edition s.nodes
+      let ss := settled.map (·.1)
+      let st := { st with subsets := (ss.map fun ns => ({ nodes := ns } : Subset)).toArray,
+                          invalid := st.invalid || settled.any (·.2) }
+      let (flag, w0) := encodeData ss 0 c
+      let w := padSection4 t.edition w0
       some (st, { cs with last := some (flag, ss.length, w.bytes) }, s!"{flag} {ss.length} {toHex w.bytes}")
     | _, _ => some (st, cs, "none")
   | ["ds.decode", ed, enf, flag, nsub, fr, to, descs, h] =>
